@@ -83,12 +83,34 @@ class Result:
     unknown: list = field(default_factory=list)
 
 
-def sh(cmd, timeout, mem_gb, cwd=None, env=None):
+def sh(cmd, timeout, mem_gb, cwd=None, env=None, max_out=None):
     def lim():
         b = mem_gb * (1 << 30)
         resource.setrlimit(resource.RLIMIT_AS, (b, b))
         os.setsid()
     t0 = time.time()
+    if max_out:
+        # output cap: cbmc writes to a file under RLIMIT_FSIZE (it is killed by SIGXFSZ beyond the cap),
+        # so a counterexample trace of tens of GB can exhaust neither this process nor the machine
+        import tempfile
+        with tempfile.TemporaryFile(dir=BUILD) as fo:
+            def lim2():
+                lim()
+                resource.setrlimit(resource.RLIMIT_FSIZE, (max_out, max_out))
+            p = subprocess.Popen(cmd, stdout=fo, stderr=subprocess.PIPE, preexec_fn=lim2, cwd=cwd, env=env)
+            try:
+                _, e = p.communicate(timeout=timeout)
+                rc = p.returncode
+            except subprocess.TimeoutExpired:
+                try:
+                    os.killpg(p.pid, 9)
+                except OSError:
+                    pass
+                _, e = p.communicate()
+                rc, e = -999, b"TIMEOUT"
+            fo.seek(0)
+            o = fo.read()
+        return rc, o.decode("utf-8", "replace"), e.decode("utf-8", "replace"), time.time() - t0
     p = subprocess.Popen(cmd, stdout=subprocess.PIPE, stderr=subprocess.PIPE, preexec_fn=lim, cwd=cwd, env=env)
     try:
         o, e = p.communicate(timeout=timeout)
@@ -199,8 +221,11 @@ def _run_lemma(l, known):
     traces = {}
     if rc != -999 and verdict and _real_failures(results, l):
         # stage 2: an obligation really failed - get counterexample values for the replay
+        # only the obligations that failed (not the reachability sentinels), output capped at 128 MB (json.loads needs 20-30x the text size)
         cbt = cb + ["--json-ui", "--trace"]
-        rc2, out2, err2, secs2 = sh(cbt, l.timeout, l.mem_gb)
+        for r in _real_failures(results, l)[:4]:
+            cbt += ["--property", r["property"]]
+        rc2, out2, err2, secs2 = sh(cbt, l.timeout, l.mem_gb, max_out=128 << 20)
         try:
             for item in json.loads(out2):
                 for r in item.get("result", []) if isinstance(item, dict) else []:
